@@ -29,10 +29,13 @@ def limb (n : L4) (i : Nat) : Nat := match i with | 0 => n.l0 | 1 => n.l1 | 2 =>
 (`for i := range N`, extracted by `go2lean` into `Facts.bitsLoopBound`) -/
 def bitsLoopBound : Nat := Facts.bitsLoopBound
 
-/-- `Bits`: 256 entries; entry `i` for `i < bitsLoopBound` is bit `i` of the canonical value -/
-def bits (s : L4) : List Nat :=
-  let n := FiatScalar.fromMontgomery s
+/-- the bit loop of `Bits` on the canonical limbs `n`: 256 entries; entry `i` for `i < bitsLoopBound` is
+`(n[i/64] >> (i % 64)) & 1` -/
+def bitsOf (n : L4) : List Nat :=
   (List.range 256).map (fun i => if i < bitsLoopBound then Nat.land (limb n (i / 64) >>> (i % 64)) 1 else 0)
+
+/-- `Bits`: leave the Montgomery domain, then expand -/
+def bits (s : L4) : List Nat := bitsOf (FiatScalar.fromMontgomery s)
 
 def equal (s : L4) (t : Option L4) : Nat := match t with | none => 0 | some t => FiatScalar.equal s t
 def isZero (s : L4) : Bool := FiatScalar.isFEZero s = 1
